@@ -171,6 +171,8 @@ func (sr *srcRenderer) vexpr(v any) string {
 		return fmt.Sprintf("%s + %d", str(m["n"]), num(m["d"]))
 	case "obs":
 		return fmt.Sprintf("r.V(%d, %s)", num(m["id"]), str(m["n"]))
+	case "qv":
+		return "rt.Level"
 	case "pv":
 		return "pwrap(" + str(m["n"]) + ")"
 	case "fresh":
@@ -184,6 +186,10 @@ func (sr *srcRenderer) vexpr(v any) string {
 		return "inc1(" + str(m["n"]) + ")"
 	case "idg":
 		return "idg(" + str(m["n"]) + ")"
+	case "swp":
+		return "swp(" + str(m["n"]) + ", 1)"
+	case "dup":
+		return "dup(" + str(m["n"]) + ", 1)"
 	case "idi":
 		return "idi(" + str(m["n"]) + ")"
 	case "unn":
@@ -268,6 +274,8 @@ func (sr *srcRenderer) simple(s any) string {
 			return sr.api + "YieldFrom(it)"
 		}
 		return "rt.YF(yield, it)"
+	case "incq":
+		return "rt.Level += 10"
 	case "setp":
 		return "pscale_" + sr.fn + " = func(x int) int { return x * 100 }"
 	case "setcv":
@@ -316,7 +324,7 @@ func (sr *srcRenderer) stmt(s any, ind string) string {
 		return ind + sr.simple(s) + "\n" + ind + "_ = " + n + "\n"
 	case "def2":
 		return ind + sr.simple(s) + "\n" + ind + "_, _ = a, b\n"
-	case "eff", "inc", "callf", "passign", "panic", "yield", "yfrom", "setcv", "sets", "setp", "effkv", "effkk", "effw", "mut", "effx", "pullit", "yfromit", "iife", "nestgen":
+	case "eff", "inc", "callf", "passign", "panic", "yield", "yfrom", "setcv", "sets", "setp", "incq", "effkv", "effkk", "effw", "mut", "effx", "pullit", "yfromit", "iife", "nestgen":
 		return indent(sr.simple(s), ind)
 	case "range":
 		return sr.rangeStmt(m, ind)
@@ -609,6 +617,9 @@ func optProlog(prog []any, fn string) string {
 	if has("gets") || has("sets") {
 		b.WriteString("\ts := &box{v: 7}\n\tget := func() int { return s.Get() }\n\t_, _ = s, get\n")
 	}
+	if has("qv") || has("incq") {
+		b.WriteString("\trt.Level = 0\n")
+	}
 	if has("pk") {
 		b.WriteString("\tinc1 := func(x int) int { return pkgInc(x) }\n")
 	}
@@ -621,6 +632,12 @@ func optProlog(prog []any, fn string) string {
 	}
 	if has("ln") {
 		b.WriteString("\tln := func(x string) int { return len(x) }\n")
+	}
+	if has("swp") {
+		b.WriteString("\tswp := func(x, y int) int { return sub2(y, x) }\n")
+	}
+	if has("dup") {
+		b.WriteString("\tdup := func(x, y int) int { return sub2(x, x) }\n")
 	}
 	if has("idi") {
 		b.WriteString("\tidi := func(x int) int { return ident(x) }\n")
@@ -648,6 +665,7 @@ func (b *box) Get() int { return b.v }
 func pkgInc(x int) int  { return x + 1 }
 func pscaleInit(x int) int { return x + 1000 }
 func seven() int           { return 7 }
+func sub2(x, y int) int    { return x - y }
 
 type myErr struct{}
 
